@@ -110,3 +110,48 @@ def fam_handles(seed, big):
                         "read": 0, "write": 0, "detached": True})
             i += 1
     return out
+
+
+BUILDER_OPS = (
+    [["arg", a] for a in ("x", "y", "", "two words")] + [["args", ["p", "q"]], ["args", []]]
+    + [["env", k, v] for k in ("A", "B", "HOME") for v in ("1", "2", "")]
+    + [["env_extend", [["A", "1"], ["B", "2"]]], ["env_extend", [["A", "2"], ["A", "1"]]], ["env_extend", []]]
+    + [["env_remove", k] for k in ("A", "B", "HOME", "NO_SUCH_VAR")] + [["env_clear"]]
+    + [["cwd", d] for d in ("/tmp", "/")]
+    + [["stdin", k] for k in ("pipe", "null", "file", "data-xyz", "merge")]
+    + [["stdout", k] for k in ("pipe", "null", "file", "merge")]
+    + [["stderr", k] for k in ("pipe", "null", "merge")]
+    + [["detached"], ["clone"]]
+)
+BUILDER_TERMS = ["join", "capture", "popen", "stream_stdout", "stream_stderr", "stream_stdin", "communicate"]
+
+
+def fam_builder(seed, big):
+    """C16: every call sequence of length <= 2 over the op menu (exhaustive), seeded longer ones, clones anywhere,
+    every terminator; Exec::shell with awkward strings"""
+    rng = random.Random(seed * 73 + 16)
+    out = []
+    i = 0
+
+    def add(ops, term, shell=None):
+        nonlocal i
+        out.append({"id": "b%d" % i, "kind": "builder", "class": "builder", "is_shell": shell is not None,
+                    "shell": shell or "", "ops": ops, "term": term, "orig_term": rng.choice(["capture", "join"]),
+                    "detached": False})
+        i += 1
+
+    for t in BUILDER_TERMS:
+        add([], t)
+    for op in BUILDER_OPS:
+        for t in (BUILDER_TERMS if big else [rng.choice(BUILDER_TERMS), "capture"]):
+            add([op], t)
+    pairs = list(itertools.product(BUILDER_OPS, BUILDER_OPS))
+    for (a, b) in (pairs if big else pairs[::9]):
+        add([a, b], rng.choice(BUILDER_TERMS))
+    for _ in range(1500 if big else 250):
+        n = rng.randint(3, 12 if big else 8)
+        add([rng.choice(BUILDER_OPS) for _ in range(n)], rng.choice(BUILDER_TERMS))
+    for sh in ("true", "true a  b 'c d'", "exit 0", "true \"$HOME\" ; true", "", "true\nnewline", "echo 'it''s' >/dev/null"):
+        add([], "join", shell=sh)
+        add([["arg", "extra arg"], ["env", "A", "1"]], "capture", shell=sh)
+    return out
